@@ -4,7 +4,7 @@
    (family "pipe").  Each stage event carries the facts its properties talk about; the guards below
    ARE the properties, evaluated by TLC on what the real code produced.  Geometry is in rounded
    pixels (TLC integers).  A stage that panics or hangs is logged as "panic"/"timeout".
-     C03 C04 fmt | C07 C08 compile | C17 C18 C19 C20 C21 layout | C26 serde *)
+     C03 C04 fmt | C07 C08 compile | C17 C18 C19 C20 C21 C22 C23 C24 layout | C26 serde *)
 EXTENDS Integers, Sequences, FiniteSets, Json, TLC
 VARIABLES l, tid, stage
 Trace == ndJsonDeserialize("trace.ndjson")
@@ -31,22 +31,117 @@ Obj(g, i) == g.objs[i]
 LabelW(g, o) == o.lw + g.pad
 LabelH(g, o) == o.lh + g.pad
 HasOutLabel(o) == o.label = 1 /\ o.lside # ""
+\* an outside label larger than the shape overflows according to its alignment (d2graph GetMargin)
+CeilHalf(d) == (d + 1) \div 2
+OverW(g, o) == IF HasOutLabel(o) /\ o.lside \in {"top", "bottom"} /\ LabelW(g, o) > o.w THEN LabelW(g, o) - o.w ELSE 0
+OverH(g, o) == IF HasOutLabel(o) /\ o.lside \in {"left", "right"} /\ LabelH(g, o) > o.h THEN LabelH(g, o) - o.h ELSE 0
+Mod3D(g, o) == IF o.threeD = 1 THEN g.threeD ELSE IF o.multiple = 1 THEN g.multiple ELSE 0
 MTop(g, o)    == Max(Max(IF HasOutLabel(o) /\ o.lside = "top" THEN LabelH(g, o) ELSE 0, IF o.icon = 1 /\ o.iside = "top" THEN g.iconSize + g.pad ELSE 0),
-                     IF HasOutLabel(o) /\ o.lside \in {"left", "right"} /\ LabelH(g, o) > o.h THEN LabelH(g, o) - o.h ELSE 0)
-                 + (IF o.threeD = 1 THEN g.threeD ELSE IF o.multiple = 1 THEN g.multiple ELSE 0)
+                     IF o.lalign = "center" THEN CeilHalf(OverH(g, o)) ELSE IF o.lalign = "end" THEN OverH(g, o) ELSE 0) + Mod3D(g, o)
 MBottom(g, o) == Max(Max(IF HasOutLabel(o) /\ o.lside = "bottom" THEN LabelH(g, o) ELSE 0, IF o.icon = 1 /\ o.iside = "bottom" THEN g.iconSize + g.pad ELSE 0),
-                     IF HasOutLabel(o) /\ o.lside \in {"left", "right"} /\ LabelH(g, o) > o.h THEN LabelH(g, o) - o.h ELSE 0)
+                     IF o.lalign = "center" THEN CeilHalf(OverH(g, o)) ELSE IF o.lalign = "start" THEN OverH(g, o) ELSE 0)
 MLeft(g, o)   == Max(Max(IF HasOutLabel(o) /\ o.lside = "left" THEN LabelW(g, o) ELSE 0, IF o.icon = 1 /\ o.iside = "left" THEN g.iconSize + g.pad ELSE 0),
-                     IF HasOutLabel(o) /\ o.lside \in {"top", "bottom"} /\ LabelW(g, o) > o.w THEN LabelW(g, o) - o.w ELSE 0)
+                     IF o.lalign = "center" THEN CeilHalf(OverW(g, o)) ELSE IF o.lalign = "end" THEN OverW(g, o) ELSE 0)
 MRight(g, o)  == Max(Max(IF HasOutLabel(o) /\ o.lside = "right" THEN LabelW(g, o) ELSE 0, IF o.icon = 1 /\ o.iside = "right" THEN g.iconSize + g.pad ELSE 0),
-                     IF HasOutLabel(o) /\ o.lside \in {"top", "bottom"} /\ LabelW(g, o) > o.w THEN LabelW(g, o) - o.w ELSE 0)
-                 + (IF o.threeD = 1 THEN g.threeD ELSE IF o.multiple = 1 THEN g.multiple ELSE 0)
+                     IF o.lalign = "center" THEN CeilHalf(OverW(g, o)) ELSE IF o.lalign = "start" THEN OverW(g, o) ELSE 0) + Mod3D(g, o)
 InBox(p, x1, y1, x2, y2, t) == p[1] >= x1 - t /\ p[1] <= x2 + t /\ p[2] >= y1 - t /\ p[2] <= y2 + t
 InExtent(g, o, p) == InBox(p, o.x - MLeft(g, o), o.y - MTop(g, o), o.x2 + MRight(g, o), o.y2 + MBottom(g, o), Tol)
 StrictlyInside(o, p) == p[1] > o.x + Tol /\ p[1] < o.x2 - Tol /\ p[2] > o.y + Tol /\ p[2] < o.y2 - Tol
 RectLike(o) == o.shape \in {"rectangle", "square", "", "class", "sql_table", "code", "text", "image", "sequence_diagram"} /\ o.threeD = 0
 \* a connection end attaches to the border of the extent: inside the (tolerant) extent, and for box-shaped shapes not in the box's interior
 EndOK(g, o, p) == InExtent(g, o, p) /\ (RectLike(o) => ~StrictlyInside(o, p))
+
+
+\* ------------------------------------------------------------------ special layouts (C22 grid, C23 sequence, C24 near)
+Abs(a) == IF a < 0 THEN 0 - a ELSE a
+Near1(a, b) == Abs(a - b) <= 1
+SeqOfSet(S, n) == [k \in 1..Cardinality(S) |-> CHOOSE i \in S : Cardinality({j \in S : j < i}) = k - 1]   \* S subset of 1..n, ascending
+
+\* ---- C22
+Cells(g, c) == SeqOfSet({i \in 1..Len(g.objs) : g.objs[i].parent = c}, Len(g.objs))     \* declaration order = list order
+VGap(o) == IF o.vg >= 0 THEN o.vg ELSE IF o.gg >= 0 THEN o.gg ELSE 40
+HGap(o) == IF o.hg >= 0 THEN o.hg ELSE IF o.gg >= 0 THEN o.gg ELSE 40
+RowDirected(o) == IF o.gridRows > 0 /\ o.gridCols > 0 THEN o.rowsFirst = 1 ELSE o.gridCols <= 0
+\* coordinates along the fill direction (u) and across it (v): rows fill along x, columns along y
+\* cells are separated extent to extent: a cell's outside label belongs to the cell
+U1X(g, o, rd) == IF rd THEN o.x - MLeft(g, o) ELSE o.y - MTop(g, o)
+U2X(g, o, rd) == IF rd THEN o.x2 + MRight(g, o) ELSE o.y2 + MBottom(g, o)
+V1X(g, o, rd) == IF rd THEN o.y - MTop(g, o) ELSE o.x - MLeft(g, o)
+V2X(g, o, rd) == IF rd THEN o.y2 + MBottom(g, o) ELSE o.x2 + MRight(g, o)
+GridOK(e, g, c) ==
+  LET grid == g.objs[c] cells == Cells(g, c) n == Len(cells) rd == RowDirected(grid)
+      ug == IF rd THEN HGap(grid) ELSE VGap(grid)      \* gap between neighbours of a line
+      vgp == IF rd THEN VGap(grid) ELSE HGap(grid)     \* gap between lines
+      O(k) == g.objs[cells[k]]
+      U1(o, r) == U1X(g, o, r) U2(o, r) == U2X(g, o, r) V1(o, r) == V1X(g, o, r) V2(o, r) == V2X(g, o, r)
+      SameLine(a, b) == Near1(V1(a, rd), V1(b, rd))
+      LineEnd(k) == CHOOSE m \in {V2(O(j), rd) : j \in {jj \in 1..n : SameLine(O(jj), O(k))}} : \A j \in {jj \in 1..n : SameLine(O(jj), O(k))} : V2(O(j), rd) <= m
+  IN
+  /\ \A k \in 1..(n - 1) : LET a == O(k) b == O(k + 1) IN
+       Chk(\/ (SameLine(a, b) /\ Near1(U1(b, rd) - U2(a, rd), ug))                                  \* next cell of the same row/column, one gap further
+           \/ (V1(b, rd) > V1(a, rd) /\ Near1(U1(b, rd), U1(O(1), rd)) /\ Near1(V1(b, rd) - LineEnd(k), vgp)),  \* first cell of the next row/column
+           "C22", "cells-not-in-declaration-order-with-the-configured-gaps", <<e.engine, grid.id, IF rd THEN "rows" ELSE "columns", k, <<a.x, a.y, a.x2, a.y2>>, <<b.x, b.y, b.x2, b.y2>>, <<ug, vgp>>>>)
+  /\ \A k \in 1..n : Chk(O(k).x >= grid.x - 1 /\ O(k).y >= grid.y - 1 /\ O(k).x2 <= grid.x2 + 1 /\ O(k).y2 <= grid.y2 + 1, "C22", "cell-outside-the-grid-container", <<e.engine, O(k).id>>)
+  /\ \A j \in 1..n : \A k \in (j + 1)..n : LET a == O(j) b == O(k) IN
+       Chk(b.x >= a.x2 - 1 \/ a.x >= b.x2 - 1 \/ b.y >= a.y2 - 1 \/ a.y >= b.y2 - 1, "C22", "cells-overlap", <<e.engine, a.id, b.id>>)
+  /\ (grid.gridRows > 0 /\ grid.gridCols > 0) =>
+       \A j \in 1..n : \A k \in 1..n : LET a == O(j) b == O(k) IN
+         /\ Chk(Near1(a.y, b.y) => Near1(a.h, b.h), "C22", "cells-of-a-row-differ-in-height", <<e.engine, a.id, b.id, a.h, b.h>>)
+         /\ Chk(Near1(a.x, b.x) => Near1(a.w, b.w), "C22", "cells-of-a-column-differ-in-width", <<e.engine, a.id, b.id, a.w, b.w>>)
+
+\* ---- C23
+Actors(g, q) == SeqOfSet({i \in 1..Len(g.objs) : g.objs[i].seq = q /\ g.objs[i].isActor = 1 /\ g.objs[i].parent = q}, Len(g.objs))
+Msgs(g, q) == SeqOfSet({k \in 1..Len(g.edges) : g.edges[k].src > 0 /\ g.edges[k].dst > 0 /\ g.objs[g.edges[k].src].seq = q /\ g.objs[g.edges[k].dst].seq = q
+                                             /\ g.objs[g.edges[k].src].actor > 0 /\ g.objs[g.edges[k].dst].actor > 0 /\ Len(g.edges[k].route) >= 2}, Len(g.edges))
+SeqOK(e, g, q) ==
+  LET actors == Actors(g, q) msgs == Msgs(g, q)
+      A(k) == g.objs[actors[k]] M(k) == g.edges[msgs[k]]
+      First(k) == M(k).route[1] LastP(k) == M(k).route[Len(M(k).route)]
+  IN
+  /\ \A k \in 1..(Len(actors) - 1) :
+       /\ Chk(A(k + 1).x >= A(k).x2, "C23", "actors-not-left-to-right-in-declaration-order", <<e.engine, A(k).id, A(k + 1).id, A(k).x, A(k + 1).x>>)
+       /\ Chk(Near1(A(k).y2, A(k + 1).y2), "C23", "actors-not-on-a-common-baseline", <<e.engine, A(k).id, A(k + 1).id, A(k).y2, A(k + 1).y2>>)
+  /\ \A k \in 1..(Len(msgs) - 1) :
+       Chk(First(k + 1)[2] >= First(k)[2], "C23", "messages-not-top-to-bottom-in-declaration-order", <<e.engine, k, First(k)[2], First(k + 1)[2]>>)
+  /\ \A k \in 1..Len(msgs) : LET sa == g.objs[g.objs[M(k).src].actor] da == g.objs[g.objs[M(k).dst].actor] IN
+       /\ Chk(sa.id # da.id => (First(k)[2] = LastP(k)[2]), "C23", "message-between-different-actors-is-not-horizontal", <<e.engine, k, First(k), LastP(k)>>)
+       /\ Chk(First(k)[1] >= sa.x - 1 /\ First(k)[1] <= sa.x2 + 1, "C23", "message-does-not-start-on-its-actors-lifeline", <<e.engine, k, sa.id, First(k), <<sa.x, sa.x2>>>>)
+       /\ Chk(LastP(k)[1] >= da.x - 1 /\ LastP(k)[1] <= da.x2 + 1, "C23", "message-does-not-end-on-its-actors-lifeline", <<e.engine, k, da.id, LastP(k), <<da.x, da.x2>>>>)
+
+\* ---- C24
+MainObjs(g) == {i \in 1..Len(g.objs) : g.objs[g.objs[i].top].near = "" /\ g.objs[i].finite = 1}
+NearOK(e, g) ==
+  LET main == MainObjs(g) IN
+  main # {} =>
+    \* the main diagram's bounding box covers the shapes with their outside labels and icons
+    LET X1(i) == g.objs[i].x - MLeft(g, g.objs[i])  Y1(i) == g.objs[i].y - MTop(g, g.objs[i])
+        X2(i) == g.objs[i].x2 + MRight(g, g.objs[i]) Y2(i) == g.objs[i].y2 + MBottom(g, g.objs[i])
+        \* ... and the routes of the connections among them
+        medges == {k \in 1..Len(g.edges) : g.edges[k].src > 0 /\ g.edges[k].dst > 0 /\ g.edges[k].src \in main /\ g.edges[k].dst \in main /\ g.edges[k].finite = 1}
+        PX == UNION {{g.edges[k].route[j][1] : j \in 1..Len(g.edges[k].route)} : k \in medges}
+        PY == UNION {{g.edges[k].route[j][2] : j \in 1..Len(g.edges[k].route)} : k \in medges}
+        XS1 == {X1(i) : i \in main} \cup PX  XS2 == {X2(i) : i \in main} \cup PX
+        YS1 == {Y1(i) : i \in main} \cup PY  YS2 == {Y2(i) : i \in main} \cup PY
+        mx1 == CHOOSE v \in XS1 : \A w \in XS1 : v <= w
+        my1 == CHOOSE v \in YS1 : \A w \in YS1 : v <= w
+        mx2 == CHOOSE v \in XS2 : \A w \in XS2 : v >= w
+        my2 == CHOOSE v \in YS2 : \A w \in YS2 : v >= w
+    IN \A i \in 1..Len(g.objs) : LET o == g.objs[i] IN
+         (o.near # "" /\ o.parent = 0 /\ o.finite = 1) =>
+           /\ Chk(o.near \in {"top-left", "top-center", "top-right"} => o.y2 <= my1 + 1, "C24", "near-top-shape-not-above-the-diagram", <<e.engine, o.id, o.near, <<o.x, o.y, o.x2, o.y2>>, <<mx1, my1, mx2, my2>>>>)
+           /\ Chk(o.near \in {"bottom-left", "bottom-center", "bottom-right"} => o.y >= my2 - 1, "C24", "near-bottom-shape-not-below-the-diagram", <<e.engine, o.id, o.near, <<o.x, o.y, o.x2, o.y2>>, <<mx1, my1, mx2, my2>>>>)
+           /\ Chk(o.near \in {"top-left", "center-left", "bottom-left"} => o.x2 <= mx1 + 1, "C24", "near-left-shape-not-left-of-the-diagram", <<e.engine, o.id, o.near, <<o.x, o.y, o.x2, o.y2>>, <<mx1, my1, mx2, my2>>>>)
+           /\ Chk(o.near \in {"top-right", "center-right", "bottom-right"} => o.x >= mx2 - 1, "C24", "near-right-shape-not-right-of-the-diagram", <<e.engine, o.id, o.near, <<o.x, o.y, o.x2, o.y2>>, <<mx1, my1, mx2, my2>>>>)
+           \* centring is judged against the main diagram when this is the only shape of its phase (several near shapes of a phase are centred on the box that the earlier ones already extended)
+           /\ Chk((o.near \in {"top-center", "bottom-center"} /\ Cardinality({j \in 1..Len(g.objs) : g.objs[j].parent = 0 /\ g.objs[j].near \in {"top-center", "bottom-center"}}) = 1) => Abs((o.x + o.x2) - (mx1 + mx2)) <= 2 * g.pad + 2, "C24", "near-center-shape-not-centred-horizontally", <<e.engine, o.id, o.near, <<o.x, o.x2>>, <<mx1, mx2>>>>)
+           /\ Chk((o.near \in {"center-left", "center-right"} /\ Cardinality({j \in 1..Len(g.objs) : g.objs[j].parent = 0 /\ g.objs[j].near \in {"center-left", "center-right"}}) = 1) => Abs((o.y + o.y2) - (my1 + my2)) <= 2 * g.pad + 2, "C24", "near-center-shape-not-centred-vertically", <<e.engine, o.id, o.near, <<o.y, o.y2>>, <<my1, my2>>>>)
+
+Special(e) ==
+  LET g == e.geom IN
+  e.ok = 1 =>
+    /\ \A c \in 1..Len(g.objs) : (g.objs[c].grid = 1 /\ g.objs[c].finite = 1) => GridOK(e, g, c)
+    /\ \A q \in 1..Len(g.objs) : (g.objs[q].isSeq = 1 /\ g.objs[q].finite = 1) => SeqOK(e, g, q)
+    /\ NearOK(e, g)
 
 Layout(e) ==
   LET g == e.geom n == Len(g.objs) IN
@@ -100,7 +195,7 @@ Next ==
          [] e.ev = "compile"   -> Compile(e) /\ stage' = "compile" /\ UNCHANGED tid
          [] e.ev = "recompile" -> Recompile(e) /\ UNCHANGED <<tid, stage>>
          [] e.ev = "fmt"       -> Fmt(e) /\ UNCHANGED <<tid, stage>>
-         [] e.ev = "layout"    -> Layout(e) /\ stage' = "layout" /\ UNCHANGED tid
+         [] e.ev = "layout"    -> Layout(e) /\ Special(e) /\ stage' = "layout" /\ UNCHANGED tid
          [] e.ev = "serde"     -> Serde(e) /\ UNCHANGED <<tid, stage>>
          [] e.ev \in {"panic", "timeout"} -> Crash(e) /\ UNCHANGED <<tid, stage>>
          [] OTHER -> Chk(FALSE, "MACHINERY", "unknown-event", e.ev) /\ UNCHANGED <<tid, stage>>
